@@ -11,14 +11,18 @@
 //      triangle probe: Eigen::GeneralizedSelfAdjointEigenSolver<DenseMatrix>(a, b) and tapkee's
 //      generalized_eigendecomposition(Dense, HomogeneousCPUStrategy, SmallestEigenvalues, a, b, d)
 //        G ok info evals <D> evecs <D*D row major> sel_evals <d> sel <D*d row major>
-//  E <npe|lltsa|lpp> N D d k width nshift kshift em  x[N*D] (sample major)
+//  E <npe|lltsa|lpp> N D d k width nshift kshift em sep  x[N*D] (sample major)  [xk[N*D] if sep = 1]
 //      em = 0: eigen_method = Dense; 1: eigen_method not given (the library's default); 2: Randomized (the library
 //      refuses generalised problems with unsupported_method_error: printed as "E unsupported <what>")
+//      sep = 0: the kernel, distance and feature callbacks all see x; sep = 1: the feature callback sees x, the
+//      kernel and distance callbacks see xk (Wave 3: translated features x = xk + t with the neighbourhood graph and
+//      the alignment / weight matrix held fixed, i.e. a translation-invariant kernel: isolates the assembly of the pencil)
 //      public API (tapkee::embed, neighbors_method = Brute) plus the
 //      reference ingredients computed by the routines that own them (find_neighbors +
 //      linear_weight_matrix / tangent_weight_matrix / compute_laplacian):
 //        E ok shape .. chain <calls> <d> <smallest> <|lhs-own|/|own|> <|rhs-own|/|own|> <|P-result|>
 //             P <D*d row major> mean <D> Y <N*d row major> M <N*N row major> dv <N>
+//             recL <D*D> recR <D*D>   (the pencil embed() handed to the solver, as recorded; empty if not recorded)
 //      (chain: the dense pencil embed() handed to generalized_eigendecomposition, recorded by a macro shim,
 //       against construct_*(same ingredients) called by the harness; P against the recorded result)
 //      (dv = degree vector for lpp, empty otherwise; the reference pencils X M X^T, X B X^T and all
@@ -29,6 +33,9 @@
 //      A = X M X^T, B = X Bmat X^T (FULL matrices), Eigen generalized solver on the full
 //      symmetric pair for the reference spectrum:
 //        R ok ref_evals <D> rq <d> res <d> gram <d*d> (P^T B P) norms <|A|> <|B|> condB <cond(B)>
+//             tab2A <D*D> (X (M + M^T) X^T) tabB <D*D> (X Bmat X^T) absA <D*D> (|X| (|M| + |M|^T) |X|^T) absB <D*D>
+//             (the reference tables themselves and the entrywise magnitudes that bound the rounding error of ANY
+//              direct summation of them: the caller compares the pencil recorded inside embed() against these)
 //  J N D d  x[N*D] (sample major)  P[D*d] (row major)
 //      compute_mean and project of routines/pca.hpp called DIRECTLY (what the three methods do after the solver):
 //        J ok mean <D> Y <N*d row major>
@@ -274,16 +281,19 @@ static int do_E(std::istringstream& is)
     is >> m >> N >> D >> d >> k;
     if (!is || !rd(is, width) || !rd(is, nshift) || !rd(is, kshift) || N <= 0 || D <= 0 || N > 4096 || D > 512)
     { printf("E ERR parse\n"); return 0; }
-    is >> em;
-    if (!is || em < 0 || em > 2) { printf("E ERR parse\n"); return 0; }
+    int sep = 0;
+    is >> em >> sep;
+    if (!is || em < 0 || em > 2 || sep < 0 || sep > 1) { printf("E ERR parse\n"); return 0; }
     int mi = method_of(m);
     if (mi < 0) { printf("E ERR method\n"); return 0; }
-    DenseMatrix X;
+    DenseMatrix X, XK;
     if (!read_x(is, N, D, X)) { printf("E ERR parse\n"); return 0; }
+    if (sep == 1) { if (!read_x(is, N, D, XK)) { printf("E ERR parse\n"); return 0; } }
+    else XK = X;
     std::vector<IndexType> idx(N);
     for (int i = 0; i < N; i++) idx[i] = i;
-    eigen_kernel_callback kcb(X);
-    eigen_distance_callback dcb(X);
+    eigen_kernel_callback kcb(XK);
+    eigen_distance_callback dcb(XK);
     eigen_features_callback fcb(X);
     TapkeeOutput out;
     c10_rec() = C10Record();
@@ -363,6 +373,11 @@ static int do_E(std::istringstream& is)
     pm("Y", out.embedding);
     pm("M", M);
     pv("dv", dv);
+    if (rec.calls == 1 && rec.lhs.rows() == D && rec.lhs.cols() == D && rec.rhs.rows() == D && rec.rhs.cols() == D)
+    {
+        pm("recL", rec.lhs);
+        pm("recR", rec.rhs);
+    }
     printf("\n");
     return 0;
 }
@@ -430,7 +445,36 @@ static int do_R(std::istringstream& is)
     Eigen::SelfAdjointEigenSolver<DenseMatrix> eb(Bs);
     double bmin = eb.eigenvalues().minCoeff(), bmax = eb.eigenvalues().maxCoeff();
     double condB = (bmin > 0) ? bmax / bmin : INFINITY;
-    printf(" norms %a %a condB %a\n", As.norm(), Bs.norm(), condB);
+    printf(" norms %a %a condB %a", As.norm(), Bs.norm(), condB);
+    // the reference tables and the magnitudes |X| (|M| + |M|^T) |X|^T, |X| |Bmat| |X|^T (plain loops)
+    DenseMatrix absA = DenseMatrix::Zero(D, D), absB = DenseMatrix::Zero(D, D);
+    {
+        DenseMatrix XMa = DenseMatrix::Zero(D, N), XBa = DenseMatrix::Zero(D, N);
+        for (int f = 0; f < D; f++)
+            for (int t = 0; t < N; t++)
+            {
+                double a = 0, b = 0;
+                for (int s = 0; s < N; s++)
+                {
+                    a += std::fabs(X(f, s)) * (std::fabs(M(s, t)) + std::fabs(M(t, s)));
+                    b += std::fabs(X(f, s)) * std::fabs(Bm(s, t));
+                }
+                XMa(f, t) = a; XBa(f, t) = b;
+            }
+        for (int f = 0; f < D; f++)
+            for (int g = 0; g < D; g++)
+            {
+                double a = 0, b = 0;
+                for (int t = 0; t < N; t++) { a += XMa(f, t) * std::fabs(X(g, t)); b += XBa(f, t) * std::fabs(X(g, t)); }
+                absA(f, g) = a; absB(f, g) = b;
+            }
+    }
+    DenseMatrix A2 = A + A.transpose();
+    pm("tab2A", A2);
+    pm("tabB", Bs);
+    pm("absA", absA);
+    pm("absB", absB);
+    printf("\n");
     return 0;
 }
 
